@@ -87,7 +87,7 @@ def row_queries(name, rows, checks, q: Q, verdicts, witness=None):
         verdicts.append(v)
 
 
-def check_cdf_table(version, mass_tau=MASS_TAU_DEFAULT, part=0, nparts=1):
+def check_cdf_table(version, mass_tau=MASS_TAU_DEFAULT, part=0, nparts=1, rows=True):
     g = read_grid("cdf", version)
     d = np.asarray(g.data, dtype=float)
     full_n = d.shape[0]
@@ -105,8 +105,10 @@ def check_cdf_table(version, mass_tau=MASS_TAU_DEFAULT, part=0, nparts=1):
                      "time_s": 0.0, "kind": "claim", "model": {"names": names}})
     # axes strictly increasing (one query per axis, symbolic index)
     row_queries(tag, [(f"axis {n}", a) for n, a in zip(names, axes)], [("axes strictly increasing", lambda k, a, b, n: a >= b)], q, verdicts)
+    do_rows = rows
     rows = [(f"logE[{i}],beta[{j}]", d[i, j, :]) for i in range(d.shape[0]) for j in range(d.shape[1])]
-    row_queries(tag, rows, [("CDF rows non-decreasing", lambda k, a, b, n: a > b)], q, verdicts)
+    if do_rows:
+        row_queries(tag, rows, [("CDF rows non-decreasing", lambda k, a, b, n: a > b)], q, verdicts)
     # first column exactly 0, last within 1e-15 of 1: one query per energy with symbolic beta index
     j = z3.Int("j")
     bad_first, bad_last = "unsat", "unsat"
